@@ -1652,12 +1652,25 @@ def post_report(c, rep):
         # the contract of the nested worker speaks about ONE enclosing variable rebound with `nonlocal`; the source keeps the
         # pending-radical state some other way, so the contract does not line up with the code: nothing is claimed symbolically
         rep.out_of_subset = rep.out_of_subset or "state of the nested worker is not a single `nonlocal` variable (contract shape not recognised)"
+    if c.target == PE and rep.error == "contract-target-missing" and _converter_present():
+        # the converter is there but its recursive worker is not a function nested in it (a method of a helper class, a module
+        # level function ...): the contract of the nested worker has nothing to line up with -- same treatment, nothing is
+        # claimed symbolically, the executable contract is run natively on the real converter
+        rep.error = None
+        rep.out_of_subset = "the recursive worker is not a function nested in omml_to_latex (contract shape not recognised)"
     if rep.out_of_subset or (rep.error and rep.error != "contract-target-missing"):
         _native_standin(c, rep)
     for o in rep.obligations:
         if o.get("status") == "refuted":
             o["status"] = "unknown"
             o["reason"] = ("candidate counter-model over the pack's abstractions; " + (o.get("reason") or ""))[:300]
+
+
+def _converter_present():
+    try:
+        return loader.module(OMML).functions.get("omml_to_latex") is not None
+    except Exception:  # noqa
+        return False
 
 
 def _native_standin(c, rep):
